@@ -40,6 +40,10 @@ pub fn run_history(fresh: &Command, drec: &Value, hist: &[Value]) -> Vec<Value> 
     let _ = fresh;
     let mut reused = crate::def::build_cmd(&drec["cmd"]);
     let mut steps = vec![];
+    // C11 requires identical *messages* of fresh, cloned and reused definitions; an explicitly built one only has to
+    // agree in matches / error kind (Command::build expands the generated help subcommand into a tree, which changes
+    // e.g. the usage line of `help help x`): after an explicit build the message is compared with the clone only
+    let mut explicitly_built = false;
     for op in hist {
         let k = op["k"].as_str().unwrap();
         match k {
@@ -53,10 +57,11 @@ pub fn run_history(fresh: &Command, drec: &Value, hist: &[Value]) -> Vec<Value> 
                 let (same_fresh, same_clone) = (same(&p1, &p2), same(&p1, &p3));
                 let ((o1, t1, _), (_, t2, _), (_, t3, _)) = (p1, p2, p3);
                 steps.push(json!({"k": k, "argv": op["argv"], "obs": o1,
-                    "same_fresh": same_fresh, "same_clone": same_clone, "text_fresh": t1 == t2, "text_clone": t1 == t3,
+                    "same_fresh": same_fresh, "same_clone": same_clone, "text_fresh": explicitly_built || t1 == t2, "text_clone": t1 == t3,
                     "text": if t1 != t2 || t1 != t3 { json!({"reused": t1, "fresh": t2, "clone": t3}) } else { json!({}) }}));
             }
             "build" => {
+                explicitly_built = true;
                 let r = guarded(std::panic::AssertUnwindSafe(|| reused.build()));
                 steps.push(json!({"k": k, "argv": [], "obs": {"outcome": if r.is_ok() { "Ok" } else { "Panic" }, "kind": "", "stderr": false, "exit": 0, "chain": []},
                                   "same_fresh": true, "same_clone": true, "text_fresh": true, "text_clone": true, "text": {}}));
